@@ -9,7 +9,6 @@
 import Jmes.Ast
 import Jmes.Lexer
 import Jmes.Json
-import Jmes.Generated
 namespace Jmes
 namespace Parser
 variable {N : Type}
@@ -334,14 +333,10 @@ def parseTokens [NumOps N] (tbl : ParserTable) (toks : List Token) : Res (Node N
   let cur ← p.cur
   if cur ≠ .eof then p.syntaxError else .ok e
 
-def lexTables : Lexer.Tables :=
-  { startBits := Generated.identifierStartBits, trailBits := Generated.identifierTrailingBits,
-    basic := Generated.basicTokens, white := Generated.whiteSpace }
-
-/-- `(*Parser).Parse(expression)` / `Compile`. -/
-def parse [NumOps N] (expr : Bytes) : Res (Node N) := do
-  let toks ← Lexer.tokenize lexTables expr
-  parseTokens Generated.table toks
+/-- `(*Parser).Parse(expression)` / `Compile`, for given tables. -/
+def parseWith [NumOps N] (lt : Lexer.Tables) (tbl : ParserTable) (expr : Bytes) : Res (Node N) := do
+  let toks ← Lexer.tokenize lt expr
+  parseTokens tbl toks
 
 end Parser
 end Jmes
